@@ -69,6 +69,7 @@ class Harness(cm.BaseB):
         # the selection inside the script commands a worklist emits, for plates and both kinds of trough
         for kind in ("plate", "trough", "gtrough"):
             out.append({"k": "wl", "kind": kind})
+        out.append({"k": "batch"})
         return out
 
     def run_pairs(self, chunk, st):
@@ -94,6 +95,35 @@ class Harness(cm.BaseB):
                     st.case("pair", case if not idx else None, f"pair{case}")
                     for v in viol:
                         st.violation(v[0] + "/order-dependent", case, f"after encoding the same mask on {R1}x{C1}: {v[1]}")
+
+    def run_batch(self, chunk, st):
+        """several selection arrays of one geometry are built first and encoded afterwards (a list comprehension of
+        arrays, then a loop over it): every string still decodes to its own selection"""
+        for R, C in ((2, 3), (8, 12), (1, 8), (16, 24), (3, 1)):
+            ids = [well_id(r, c) for c in range(C) for r in range(R)]
+            sels = [[ids[0]], ids[: max(1, len(ids) // 2)], [ids[-1]], ids[1::2] or [ids[0]], [], ids]
+            for order in (sels, sels[::-1]):
+                case = {"batch": [R, C, order]}
+                viol = self.one_batch(case)
+                st.case("batch", case if R * C < 30 else None, f"batch{R}x{C}{len(order[0])}")
+                for v in viol:
+                    st.violation(v[0], case, v[1])
+
+    def one_batch(self, case):
+        R, C, sels = case["batch"]
+        V = []
+        try:
+            arrays = [commands.evo_make_selection_array(R, C, list(w)) for w in sels]
+            strings = [commands.evo_get_selection(R, C, a) for a in arrays]
+        except Exception as e:
+            return [("C12/raised", f"{R}x{C}: building {len(sels)} selection arrays and encoding them afterwards: {type(e).__name__}: {e}")]
+        for w, s in zip(sels, strings):
+            want = {(ord(x[0]) - 65, int(x[1:]) - 1) for x in w}
+            cols, rows, got, pad = gwl.decode_selection(s)
+            if got != want or (rows, cols) != (R, C):
+                V.append(("C12/decoded-selection", f"{R}x{C}: {len(sels)} selection arrays were built first and encoded afterwards; the one for {list(w)[:6]} gives {s!r}, which decodes to {sorted(got)[:6]}"))
+                break
+        return V
 
     def run_errors(self, chunk, st):
         """a call that is refused half-way (unknown well after valid ones) must not influence the next call"""
@@ -171,6 +201,8 @@ class Harness(cm.BaseB):
             return self.run_errors(chunk, st)
         if chunk["k"] == "wl":
             return self.run_wl(chunk, st)
+        if chunk["k"] == "batch":
+            return self.run_batch(chunk, st)
         if chunk["k"] == "pairs":
             return self.run_pairs(chunk, st)
         if chunk["k"] == "all":
@@ -210,6 +242,8 @@ class Harness(cm.BaseB):
             return [[c, d] for c, d in self.one_errseq(case)]
         if "wl" in case:
             return [[c, d] for c, d in self.one_wl(case)]
+        if "batch" in case:
+            return [[c, d] for c, d in self.one_batch(case)]
         if "seq" in case:
             (R1, C1, s1), (R2, C2, s2) = case["seq"]
             cm.vandalize_helpers(R1, C1)
